@@ -484,6 +484,9 @@ TrickyExprs ==
         Infix("==", Prefix("!", Group(idA)), Prefix("!", idB)),
         Infix("==", idA, Prefix("-", i10)), Infix("!=", idA, Prefix("!", idB))}
   \cup ChainReturns
+  \* a double-quoted literal with a raw line feed, alone and inside a parenthesised group of a compound condition
+  \* (the nested-condition printer indents every line of its text: seeded change C14-10)
+  \cup {Infix("==", idA, sNL), Infix("&&", idA, Group(Infix("||", idB, Infix("==", idC, sNL))))}
 PosStmts(e) ==
   {SetS(idA, "=", e), AddS(idC, "=", e), Declare("var.b", "BOOL", e), ValS("log", "log", e), ValS("synthetic", "synthetic", e),
    ErrorS(Int("601", "601"), e), Call("helper", <<e, idB>>, "parens"), Call("helper", <<idB, e>>, "parens"), FCall("std.collect", <<idA, e>>),
